@@ -18,7 +18,7 @@ THEOREMS = ["CKT.C01." + t for t in ["expansion", "blocks_factor", "pair_prod_fa
                                         "supported_exact", "cut_rzz_exact", "cut_cx_exact", "cut_move_exact", "cut_kak_exact",
                                         "SGate.exact", "supported_round_trip",
                                         # measured subexperiments: signed sums over fresh bits + Walsh identity => decoded distribution = E_p
-                                        "linRun_eq_runOps", "decoded_eq", "reconstruction_correct", "runI_eq_actL", "SubExp.ofInstrs_final"]] + \
+                                        "linRun_eq_runOps", "decoded_eq", "reconstruction_correct", "runI_eq_actL", "SubExp.ofInstrs_final", "canonicalSub_ok", "reconstruction_correct_canonical"]] + \
            ["CKT.Sem.signed_run", "CKT.Sem.decode_full", "CKT.Sem.meas_signed", "CKT.Sem.decode_blocks",
             # ... and that decoded number is what C06's accumulator loop returns on the exact quasi-distribution of the subexperiment
             "CKT.C06Sem.estimator_is_signedSum", "CKT.C01PTM.decoded_is_estimator",
